@@ -12,7 +12,7 @@ import tempfile
 import time
 import z3
 
-Z3_TIMEOUT_MS = int(os.environ.get("PYVC_Z3_TIMEOUT_MS", "20000"))
+Z3_TIMEOUT_MS = int(os.environ.get("PYVC_Z3_TIMEOUT_MS", "8000"))
 CVC5_TIMEOUT_S = int(os.environ.get("PYVC_CVC5_TIMEOUT_S", "30"))
 CVC5_BIN = "/usr/bin/cvc5"
 Z3_OLD_BIN = "/usr/bin/z3"
@@ -146,6 +146,11 @@ def solve_one(job):
     final = r
     if r == "sat":
         res["model"] = model
+    if final == "unknown":
+        # pure MBQI (e-matching off) decides many set/relation queries the default configuration loops on
+        r5, dt5 = _check_z3_cli_model(smt2, 15)
+        res["backends"]["z3-5.1-cli-noematch"] = dict(result=r5, seconds=round(dt5, 3))
+        final = r5
     if final == "unknown":
         # counter-model search in finite scopes first (fast): the scope axioms only ADD constraints, so sat here is sat there
         for n, sm in scoped:
